@@ -11,6 +11,7 @@ import (
 	"github.com/ThreeDotsLabs/watermill/components/requestreply"
 	"github.com/ThreeDotsLabs/watermill/message"
 	gogotypes "github.com/gogo/protobuf/types"
+	"google.golang.org/protobuf/types/known/structpb"
 	"google.golang.org/protobuf/proto"
 	"google.golang.org/protobuf/types/known/wrapperspb"
 
@@ -171,28 +172,32 @@ func codecScenario() *explore.Scenario {
 				}
 			}
 		}
-		// protobuf marshalers
-		for _, m := range []cqrs.CommandEventMarshaler{cqrs.ProtoMarshaler{}, cqrs.ProtobufMarshaler{}} {
-			for _, v := range []proto.Message{wrapperspb.String(s), wrapperspb.Bytes([]byte(s)), wrapperspb.Int64(int64(len(s)) - 3)} {
-				n++
-				msg, err := m.Marshal(v)
-				if err != nil {
-					vs.Fail("proto-roundtrip", "%T Marshal(%v): %v", m, v, err)
-					continue
-				}
-				back := proto.Clone(v)
-				proto.Reset(back)
-				if err := m.Unmarshal(msg, back); err != nil || !proto.Equal(back, v) {
-					vs.Fail("proto-roundtrip", "%T Unmarshal(Marshal(%v)) = %v, %v", m, v, back, err)
-				}
-				if m.NameFromMessage(msg) != m.Name(v) {
-					vs.Fail("name-roundtrip", "%T NameFromMessage = %q, Name = %q", m, m.NameFromMessage(msg), m.Name(v))
+		// protobuf marshalers, all name generators; structpb values (oneof, map of messages) are what the legacy
+		// gogo marshaler cannot encode itself and hands to its standard-protobuf fallback
+		for _, gen := range []func(interface{}) string{nil, cqrs.StructName, cqrs.NamedStruct(cqrs.FullyQualifiedStructName)} {
+			for _, m := range []cqrs.CommandEventMarshaler{cqrs.ProtoMarshaler{GenerateName: gen}, cqrs.ProtobufMarshaler{GenerateName: gen}} {
+				for _, v := range []proto.Message{wrapperspb.String(s), wrapperspb.Bytes([]byte(s)), wrapperspb.Int64(int64(len(s)) - 3),
+					structpb.NewStringValue(s), &structpb.Struct{Fields: map[string]*structpb.Value{s: structpb.NewStringValue(s), "n": structpb.NewNumberValue(1.5)}}} {
+					n++
+					msg, err := m.Marshal(v)
+					if err != nil {
+						vs.Fail("proto-roundtrip", "%T Marshal(%v): %v", m, v, err)
+						continue
+					}
+					back := proto.Clone(v)
+					proto.Reset(back)
+					if err := m.Unmarshal(msg, back); err != nil || !proto.Equal(back, v) {
+						vs.Fail("proto-roundtrip", "%T Unmarshal(Marshal(%v)) = %v, %v", m, v, back, err)
+					}
+					if m.NameFromMessage(msg) != m.Name(v) {
+						vs.Fail("name-roundtrip", "%T (%T): NameFromMessage = %q, Name = %q", m, v, m.NameFromMessage(msg), m.Name(v))
+					}
 				}
 			}
 		}
 		// gogo types through ProtobufMarshaler (legacy fallback)
 		{
-			m := cqrs.ProtobufMarshaler{}
+			m := cqrs.ProtobufMarshaler{GenerateName: cqrs.StructName}
 			v := &gogotypes.StringValue{Value: s}
 			n++
 			msg, err := m.Marshal(v)
